@@ -54,6 +54,45 @@ func (p *Program) FrameScan(structKey, field string) []string {
 	return out
 }
 
+// UseScan lists the /repo functions that take the address of (or read) field `field` of struct type `structKey` at all.
+// It is the package-wide check behind a `guarded` declaration: the lock-held obligations are generated only in
+// functions under contract, so no other function may touch the field.
+func (p *Program) UseScan(structKey, field string) []string {
+	found := map[string]bool{}
+	for f := range ssautil.AllFunctions(p.Prog) {
+		if !p.InRepo(f) || f.Blocks == nil {
+			continue
+		}
+		for _, b := range f.Blocks {
+			for _, ins := range b.Instrs {
+				var cont types.Type
+				var idx int
+				switch x := ins.(type) {
+				case *ssa.FieldAddr:
+					cont, idx = x.X.Type().Underlying().(*types.Pointer).Elem(), x.Field
+				case *ssa.Field:
+					cont, idx = x.X.Type(), x.Field
+				default:
+					continue
+				}
+				cs, ok := cont.Underlying().(*types.Struct)
+				if !ok {
+					continue
+				}
+				if TypeKey(cont) == structKey && cs.Field(idx).Name() == field {
+					found[FuncKey(f)] = true
+				}
+			}
+		}
+	}
+	var out []string
+	for k := range found {
+		out = append(out, k)
+	}
+	sort.Strings(out)
+	return out
+}
+
 // GlobalStores lists the /repo functions other than package initialisers that store to a package-level variable.
 func (p *Program) GlobalStores() map[string][]string {
 	out := map[string][]string{}
